@@ -6,7 +6,11 @@ Four kinds of cases (inp['kind']):
   file    a hand-made file (rendered with Python's own csv.writer: LF / CRLF / CR line ends, optional BOM, QUOTE_ALL or
           QUOTE_MINIMAL, short / long / blank records, last line end stripped) with a known logical content is read
   raw     arbitrary text (stray quotes, CR, BOMs, duplicate names, empty file): model correspondence only
-  series  writing a DataMatrix with a series column must raise TypeError
+  series  a table is built by a small program of steps (plain columns, SeriesColumn(depth, defaultnan), depth setter,
+          sample slices, the same column under a second name, rename, delete, series functions, ops.group, selections,
+          row reordering / stacking / length changes, ...); as long as one of its columns is a series column -- of any
+          depth, 0 included, at any position -- io.writetxt must raise TypeError (nothing is read from the file); once
+          the program has removed / reduced every series column the whole round trip applies again
 """
 import csv
 import hashlib
@@ -76,6 +80,16 @@ def _table(dm):
     return names, rows
 
 
+def _colobjs(dm):
+    """[(name, depth)] of the column objects of dm, depth = None unless the object is a series column (decided by its
+    class, not by the attribute test DataMatrix.is_2d makes); in the order of dm.columns."""
+    from datamatrix._datamatrix._seriescolumn import _SeriesColumn
+    out = []
+    for nm, col in dm.columns:
+        out.append((nm, int(col._seq.shape[1]) if isinstance(col, _SeriesColumn) else None))
+    return out
+
+
 def _iter_table(dm):
     """The same table read through row iteration."""
     names = None
@@ -139,6 +153,11 @@ def _rows_lit(rows):
 
 def _recs_lit(recs):
     return L.lst([L.lst([_string(f) for f in r]) for r in recs])
+
+
+def _cols_lit(cols):
+    """[(name, depth or None)] -> list (string * colobj)"""
+    return L.lst(['(%s, %s)' % (_string(n), L.opt(k, _z)) for n, k in cols])
 
 
 def _ascii(ch):
@@ -250,21 +269,37 @@ class C16:
             'Python\'s csv.writer from a header and records of text fields (LF/CRLF/CR, BOM, QUOTE_MINIMAL/QUOTE_ALL, '
             'short, long and blank records, numeric-looking texts, last line end stripped) is read by io.readtxt and '
             'compared with its logical content. raw (~8%): random text over {a,b,space,delimiter,quote,LF,CR,e-acute,BOM,'
-            '1,.} of length 0..30, model correspondence only (the property says nothing). series: a handful of tables with '
-            'a SeriesColumn, writetxt must raise TypeError. non-trivial = rt with >= 1 row / file with >= 1 record or a BOM '
-            '/ series; distinct by the sha1 of the generating input')
+            '1,.} of length 0..30, model correspondence only (the property says nothing). series (~14%, ~90 fixed + random): '
+            'a table of 0..5 rows built by a program of steps: 0..3 plain columns (Mixed/Float/Int; names sorting before, '
+            'between and after the series names) and 1..2 SeriesColumn(depth in {0,1,2,3,5,6}, defaultnan True/False) in '
+            'any creation order, or ops.group() of a table / of an empty selection; then 0..3 history steps (depth setter '
+            'to 0 / to k / to 0 and back, scalar fill, per-row assignment, cell assignment, sample slice s[:, lo:hi] incl. '
+            'lo = hi stored as a new column, the same column object under a second name, rename, delete, series functions '
+            'z / smooth / downsample / window / interpolate / concatenate / baseline / threshold / lock / endlock / '
+            'arithmetic), 0..2 table-state steps (rows reversed / sliced / all removed / duplicated, dm << dm, sorted = '
+            'False, length setter, ops.sort, copy, selection, keep_only), possibly one more history step, and in ~18% a '
+            'final step that deletes or srs.reduce()s every series column; 5 delimiter/quote pairs. While a series '
+            'column is present (decided by the class of the column object) writetxt must raise TypeError and the file is '
+            'not looked at; after the final step the table is two-dimensional and the rt check applies. A building step '
+            'that raises is counted (tag build-raised) and not judged. Fixed families in every run: zero-row tables '
+            '(declared empty, emptied by a selection, emptied by the length setter), header-only files and files none of '
+            'whose records reaches the last column(s), for every delimiter/quote pair x LF/CRLF/CR x BOM. '
+            'non-trivial = rt with >= 1 row / file with >= 1 record or a BOM / series; distinct by the sha1 of the '
+            'generating input')
     trusted_base = [
         'Coq 8.16.1 kernel (coqc; vm_compute for evaluating cases; no native_compute)',
         'translator /verif/translate (gen_csv.py, pystmt.py): safe_decode chain, dialect arguments of csv.reader / '
         'csv.writer, line terminator, BOM rule, missing-cell fill, is_2d guard of datamatrix/io/_text.py and '
-        'py3compat.py -> Gen/KCsv.v (and gen_checktype.py -> Gen/KCheck.v for the cells stored by readtxt)',
+        'py3compat.py, DataMatrix.is_2d (loop over self.columns testing hasattr(col, "depth"); a column object is '
+        'abstracted to the value of its depth attribute, if any) -> Gen/KCsv.v (and gen_checktype.py -> Gen/KCheck.v for the cells stored by readtxt)',
         'hand-written model of CPython\'s _csv.c reader automaton and writer (QUOTE_MINIMAL, doublequote), of text-mode '
         'universal newlines, of the line iterator and of UTF-8 strings as byte strings in Model/Csv.v and Base/CsvPy.v: '
         'tied to the implementation by the correspondence cases only',
         'CPython\'s builtins repr(float), int(str), float(str) used as oracles (the SH / CL lists passed with every case); '
         'Python\'s own csv.reader is used only to enumerate the field texts whose classification is passed',
         'harness/c16.py (table observation through dm[name][i] and row iteration, file rendering of the hand-made files '
-        'with csv.writer), harness/pyobs.py, harness/coqlit.py',
+        'with csv.writer; which columns are series columns is read from the class of the column objects in dm.columns), '
+        'harness/pyobs.py, harness/coqlit.py',
     ]
     assumptions = [
         'cells and column names contain no CR and no NUL character (a CR inside a written cell is not preserved by '
@@ -345,8 +380,7 @@ class C16:
 
     # -- kind rt
     def _rt(self, inp, path):
-        from datamatrix import DataMatrix, io as dmio
-        delim, quote = inp['delim'], inp['quote']
+        from datamatrix import DataMatrix
         cols = inp['cols']
         n = len(cols[0]['cells'])
         assert all(len(c['cells']) == n for c in cols)
@@ -367,31 +401,39 @@ class C16:
         names, rows = _table(dm)
         assert len(rows) == n and all(type(x) is str for x in names), (names, rows)
         assert all(_is_plain(v) for r in rows for v in r), rows
-        classes = sorted({k for r in rows for v in r for k in _cell_classes(v, delim, quote)})
-        tags = ['rt', 'rows%d' % n, 'cols%d' % len(cols), 'delim:' + DELIM_NAME.get(delim, repr(delim)),
-                'quote:' + QUOTE_NAME.get(quote, repr(quote)), 'order:' + order] + \
-            sorted({'col:' + c['type'] for c in cols}) + ['cell:' + k for k in classes]
+        tags = ['rt', 'rows%d' % n, 'cols%d' % len(cols), 'order:' + order] + sorted({'col:' + c['type'] for c in cols})
         if not inp.get('sorted', True):
             tags.append('unsorted')
+        return self._write_read(dm, inp, path, names, rows, tags, n >= 1)
+
+    def _write_read(self, dm, inp, path, names, rows, tags, nontrivial):
+        """writetxt + readtxt of a table of plain columns whose observed content is (names, rows)."""
+        from datamatrix import io as dmio
+        delim, quote = inp['delim'], inp['quote']
+        classes = sorted({k for r in rows for v in r for k in _cell_classes(v, delim, quote)})
+        tags = tags + ['delim:' + DELIM_NAME.get(delim, repr(delim)), 'quote:' + QUOTE_NAME.get(quote, repr(quote))] + \
+            ['cell:' + k for k in classes]
         D, Q = _ascii(delim), _ascii(quote)
         NAMES_, ROWS_ = _names_lit(names), _rows_lit(rows)
+        # the column objects as DataMatrix.is_2d sees them: none of them is a series column
+        COLS = _cols_lit(_colobjs(dm))
         observed = {'names': names, 'rows': _jrows(rows)}
-        base = {'input': inp, 'observed': observed, 'nontrivial': n >= 1, 'sig': _sig(inp), 'tags': tags}
+        base = {'input': inp, 'observed': observed, 'nontrivial': nontrivial, 'sig': _sig(inp), 'tags': tags}
         # write
         try:
             dmio.writetxt(dm, path, delimiter=delim, quotechar=quote)
         except Exception as e:      # noqa: BLE001
             observed['writetxt_raises'] = type(e).__name__
             base.update(pyfail='writetxt raised %s: %s' % (type(e).__name__, str(e)[:200]), oracle='false',
-                        model='(write_agrees %s %s %s true %s %s (Raise %s))' % (
-                            _sh_lit(rows), D, Q, NAMES_, ROWS_, pyobs.exn_name(e)))
+                        model='(write_agrees_cols %s %s %s %s %s %s (Raise %s))' % (
+                            _sh_lit(rows), D, Q, COLS, NAMES_, ROWS_, pyobs.exn_name(e)))
             return base
         with open(path, 'rb') as f:
             data = f.read()
         text = data.decode('utf-8')
         observed['text'] = text
         TEXT = _string(text)
-        m_write = '(write_agrees %s %s %s true %s %s (Ok %s))' % (_sh_lit(rows), D, Q, NAMES_, ROWS_, TEXT)
+        m_write = '(write_agrees_cols %s %s %s %s %s %s (Ok %s))' % (_sh_lit(rows), D, Q, COLS, NAMES_, ROWS_, TEXT)
         CL = _cl_lit(_file_fields(path, delim, quote))
         # read back
         st, names2, rows2, pyfail, exc = self._read_back(path, delim, quote)
@@ -462,6 +504,10 @@ class C16:
             tags.append('blank-line')
         if inp['strip_last']:
             tags.append('strip-last')
+        if not recs:
+            tags.append('no-records')
+        elif max(len(r) for r in recs) < len(hdr):
+            tags.append('all-short')
         if any('\n' in f for r in recs for f in r):
             tags.append('lf-in-field')
         texts = [''] + [f for r in [hdr] + recs for f in r]
@@ -518,31 +564,203 @@ class C16:
                 'nontrivial': False, 'sig': _sig(inp), 'tags': ['raw', 'raises' if st == 'exn' else 'ok']}
 
     # -- kind series
+    # cells of the plain columns of a series case, by row index
+    STYLES = {
+        'int': lambda i: 3 * i - 2,
+        'key': lambda i: ['a', 'b', 'a', 'c'][i % 4],
+        'str': lambda i: ['x', 'a,b', 'q"r', '', 'é', "it's;|", 'l\nf'][i % 7],
+        'float': lambda i: [0.5, float('nan'), -2.0, 1e22, float('inf'), 0.1][i % 6],
+        'mix': lambda i: [1, 'a\tb', 2.5, None, -7][i % 5],
+    }
+
+    @staticmethod
+    def _series_names(dm):
+        return [nm for nm, k in _colobjs(dm) if k is not None]
+
+    def _step(self, dm, st):
+        """One building step of a series case; returns the (possibly new) DataMatrix."""
+        from datamatrix import SeriesColumn, operations as ops, series as srs
+        op = st[0]
+        if op == 'plain':
+            _, name, style, typ = st
+            dm[name] = _coltype(typ)
+            if len(dm):
+                dm[name] = [self.STYLES[style](i) for i in range(len(dm))]
+        elif op == 'series':
+            dm[st[1]] = SeriesColumn(depth=int(st[2]), defaultnan=bool(st[3]))
+        elif op == 'fill':
+            dm[st[1]] = st[2]
+        elif op == 'ramp':
+            col = dm[st[1]]
+            for i in range(len(dm)):
+                col[i] = [i + 0.5 * j for j in range(col.depth)]
+        elif op == 'setcell':
+            dm[st[1]][int(st[2]), int(st[3])] = st[4]
+        elif op == 'setdepth':
+            dm[st[1]].depth = int(st[2])
+        elif op == 'sslice':
+            dm[st[1]] = dm[st[2]][:, int(st[3]):int(st[4])]
+        elif op == 'alias':
+            dm[st[1]] = dm[st[2]]
+        elif op == 'rename':
+            dm.rename(st[1], st[2])
+        elif op == 'del':
+            del dm[st[1]]
+        elif op == 'fn':
+            _, fname, new, src = st
+            c = dm[src]
+            if fname == 'z':
+                r = srs.z(c)
+            elif fname == 'smooth':
+                r = srs.smooth(c, winlen=3)
+            elif fname == 'downsample':
+                r = srs.downsample(c, by=2)
+            elif fname == 'window':
+                r = srs.window(c, start=0, end=1)
+            elif fname == 'window0':
+                r = srs.window(c, start=1, end=1)
+            elif fname == 'interpolate':
+                r = srs.interpolate(c)
+            elif fname == 'concatenate':
+                r = srs.concatenate(c, c)
+            elif fname == 'baseline':
+                r = srs.baseline(c, c, 0, 1)
+            elif fname == 'threshold':
+                r = srs.threshold(c, lambda v: v > 1)
+            elif fname == 'endlock':
+                r = srs.endlock(c)
+            elif fname == 'lock':
+                r = srs.lock(c, [0] * len(c))[0]
+            elif fname == 'arith':
+                r = c * 2 + 1
+            elif fname == 'reduce':
+                r = srs.reduce(c)
+            else:
+                raise AssertionError(fname)
+            dm[new] = r
+        elif op == 'group':
+            dm = ops.group(dm, by=[dm[nm] for nm in st[1]])
+        elif op == 'select':
+            _, name, rel, val = st
+            dm = (dm[name] == val) if rel == 'eq' else (dm[name] != val) if rel == 'ne' else (dm[name] > val)
+        elif op == 'rows':
+            how, n = st[1], len(dm)
+            if how == 'rev':
+                dm = dm[list(range(n - 1, -1, -1))] if n else dm      # dm[[]] would select no COLUMNS
+            elif how == 'tail':
+                dm = dm[1:]
+            elif how == 'empty':
+                dm = dm[0:0]
+            elif how == 'dup':
+                dm = dm[[i // 2 for i in range(2 * n)]] if n else dm
+            else:
+                raise AssertionError(how)
+        elif op == 'stack':
+            dm = dm << dm
+        elif op == 'unsorted':
+            dm.sorted = False
+        elif op == 'length':
+            dm.length = max(0, len(dm) + int(st[1]))
+        elif op == 'sort':
+            dm = ops.sort(dm, by=dm[st[1]])
+        elif op == 'copy':
+            dm = dm[:]
+        elif op == 'keep':
+            dm = ops.keep_only(dm, *list(st[1]))
+        elif op == 'resolve':
+            # make the table two-dimensional again: every series column is deleted / replaced by its reduction
+            for nm in self._series_names(dm):
+                if nm not in dm:
+                    continue
+                if st[1] == 'reduce':
+                    dm[nm] = srs.reduce(dm[nm])
+                else:
+                    del dm[nm]
+        else:
+            raise AssertionError(op)
+        return dm
+
     def _series(self, inp, path):
-        from datamatrix import DataMatrix, SeriesColumn, MixedColumn, io as dmio
-        k, n, m = int(inp['depth']), int(inp['rows']), int(inp['extra_cols'])
-        dm = DataMatrix(length=n)
-        for j in range(m):
-            nm = 'c%d' % j
-            dm[nm] = MixedColumn
-            if n:
-                dm[nm] = list(range(n))
-        dm['s'] = SeriesColumn(depth=k)
+        from datamatrix import DataMatrix, io as dmio
+        if 'steps' not in inp:      # the first form of these inputs: extra_cols plain columns, then one series column
+            steps = [['plain', 'c%d' % j, 'int', 'mixed'] for j in range(int(inp['extra_cols']))] + \
+                [['series', 's', int(inp['depth']), True]]
+            inp2 = dict(inp, steps=steps, delim=',', quote='"')
+        else:
+            inp2 = inp
+        delim, quote = inp2['delim'], inp2['quote']
+        tags = ['series', 'rows0:%d' % int(inp2['rows'])]
+        neutral = {'input': inp, 'observed': {}, 'pyfail': None, 'oracle': 'true', 'model': 'true', 'nontrivial': False,
+                   'sig': _sig(inp), 'tags': tags + ['build-raised']}
+        # ---- build (an exception here is not a verdict on writetxt: the case is counted and left aside)
+        try:
+            dm = DataMatrix(length=int(inp2['rows']))
+            for st in inp2['steps']:
+                dm = self._step(dm, st)
+                tags.append('op:' + (st[0] if st[0] != 'fn' else 'fn-' + st[1]))
+            cols = _colobjs(dm)
+            nrows = len(dm)
+        except KeyboardInterrupt:
+            raise
+        except BaseException as e:      # noqa: BLE001
+            neutral['observed'] = {'build_raises': '%s: %s' % (type(e).__name__, str(e)[:120])}
+            return neutral
+        depths = [k for _, k in cols if k is not None]
+        if not cols:
+            neutral['tags'] = tags + ['no-columns']
+            return neutral
+        tags = sorted(set(tags)) + ['rows%d' % min(nrows, 6), 'ncols%d' % len(cols), 'nseries%d' % min(len(depths), 3)] + \
+            sorted({'depth%d' % min(k, 6) for k in depths})
+        if depths:
+            pos = [i for i, (_, k) in enumerate(cols) if k is not None]
+            if 0 in pos:
+                tags.append('series-first')
+            if len(cols) - 1 in pos:
+                tags.append('series-last')
+            if any(0 < i < len(cols) - 1 for i in pos):
+                tags.append('series-middle')
+            if len(depths) == len(cols):
+                tags.append('series-only')
+            ids = [id(dm[nm]) for nm, k in cols if k is not None]
+            if len(set(ids)) < len(ids):
+                tags.append('series-two-names')
+        if not depths:
+            # two-dimensional again: the whole round trip applies
+            try:
+                names, rows = _table(dm)
+                ok = all(type(x) is str for x in names) and all(_is_plain(v) for r in rows for v in r)
+            except KeyboardInterrupt:
+                raise
+            except BaseException as e:      # noqa: BLE001
+                neutral['observed'] = {'observe_raises': '%s: %s' % (type(e).__name__, str(e)[:120])}
+                return neutral
+            if not ok:
+                neutral['tags'] = tags + ['non-plain-cells']
+                return neutral
+            return self._write_read(dm, inp, path, names, rows, tags + ['series-resolved'], True)
+        # ---- write: must raise TypeError; nothing is read from the file
         raised = None
         try:
-            dmio.writetxt(dm, path, delimiter=',', quotechar='"')
-        except Exception as e:      # noqa: BLE001
+            dmio.writetxt(dm, path, delimiter=delim, quotechar=quote)
+        except KeyboardInterrupt:
+            raise
+        except BaseException as e:      # noqa: BLE001
             raised = e
-        D, Q = _ascii(','), _ascii('"')
+        D, Q = _ascii(delim), _ascii(quote)
         if raised is None:
             obs, mobs = 'None', '(Ok "")'
         else:
             obs, mobs = '(Some %s)' % pyobs.exn_name(raised), '(Raise %s)' % pyobs.exn_name(raised)
-        return {'input': inp, 'observed': {'raises': type(raised).__name__ if raised is not None else None},
-                'pyfail': None if raised is not None else 'writetxt of a DataMatrix with a series column did not raise',
-                'oracle': '(oracle_raises TypeError %s)' % obs,
-                'model': '(write_agrees [] %s %s false [] [] %s)' % (D, Q, mobs),
-                'nontrivial': True, 'sig': _sig(inp), 'tags': ['series', 'depth%d' % k, 'rows%d' % n]}
+        SER = L.lst(['true' if k is not None else 'false' for _, k in cols])
+        return {'input': inp,
+                'observed': {'columns': [[nm, k] for nm, k in cols], 'rows': nrows,
+                             'raises': type(raised).__name__ if raised is not None else None,
+                             'file_created': os.path.exists(path)},
+                'pyfail': None if raised is not None else
+                'writetxt of a DataMatrix with a series column (depths %r) did not raise' % (depths,),
+                'oracle': '(oracle_write_guard %s %s)' % (SER, obs),
+                'model': '(write_agrees_cols [] %s %s %s [] [] %s)' % (D, Q, _cols_lit(cols), mobs),
+                'nontrivial': True, 'sig': _sig(inp), 'tags': tags}
 
     # ---- generators ----------------------------------------------------------
     @staticmethod
@@ -617,8 +835,15 @@ class C16:
         nl = rng.choice(['\n', '\n', '\r\n', '\r\n', '\r'])
         quoting = 'all' if rng.random() < 0.3 else 'minimal'
         recs = []
-        for _ in range(rng.randint(0, maxrecs)):
-            ln = len(hdr) if rng.random() < 0.65 else rng.randint(0, len(hdr) + 2)
+        # shape of the records: any / no record at all / every record too short to reach the last column(s)
+        c = rng.random()
+        shape = 'norecs' if c < 0.06 else 'allshort' if c < 0.16 and len(hdr) >= 2 else 'any'
+        reach = rng.randint(0, len(hdr) - 1)        # allshort: no record has more than `reach` fields
+        for _ in range(0 if shape == 'norecs' else rng.randint(1 if shape == 'allshort' else 0, maxrecs)):
+            if shape == 'allshort':
+                ln = rng.randint(0, reach)
+            else:
+                ln = len(hdr) if rng.random() < 0.65 else rng.randint(0, len(hdr) + 2)
             rec = []
             for _ in range(ln):
                 c = rng.random()
@@ -644,6 +869,225 @@ class C16:
             alpha = alpha + ['\x0b', '\x85', '\u2028']
         return {'kind': 'raw', 'delim': delim, 'quote': quote,
                 'text': ''.join(rng.choice(alpha) for _ in range(rng.randint(0, 30)))}
+
+    # names whose sort position differs relative to each other: upper case < lower case < non-ASCII
+    SER_NAMES = ['A', 'S0', 'd', 'mm', 'zz', 'é', '_s', 'q1']
+    PLAIN_NAMES = ['B', 'b', 'k0', 'n', 'y', 'λ', 'Zed']
+    FN_ANY = ['window', 'window0', 'concatenate', 'baseline', 'threshold', 'endlock', 'arith']   # any row count
+    FN_ROWS = ['z', 'downsample', 'interpolate', 'lock']                                        # >= 1 row
+
+    @staticmethod
+    def _fn_depth(f, d):
+        if d is None:
+            return 0 if f == 'window0' else None
+        return {'downsample': d // 2, 'window': min(d, 1), 'window0': 0, 'concatenate': 2 * d}.get(f, d)
+
+    def gen_series(self, rng):
+        """A table with series columns of some shape and history, in some state (see `rule`)."""
+        delim, quote = rng.choice(DIALECTS)
+        n = rng.choice([0, 1, 1, 2, 3, 3, 5])
+        steps = []
+        ser = {}            # series column name -> depth (None = not tracked)
+        plain = {}          # plain column name -> style
+        free_s = list(self.SER_NAMES)
+        free_p = list(self.PLAIN_NAMES)
+        rng.shuffle(free_s)
+        rng.shuffle(free_p)
+
+        def add_plain(style=None):
+            nm = free_p.pop()
+            style = style or rng.choice(['int', 'str', 'float', 'mix', 'key'])
+            typ = {'int': rng.choice(['int', 'mixed', 'float']), 'float': rng.choice(['float', 'mixed'])}.get(style, 'mixed')
+            steps.append(['plain', nm, style, typ])
+            plain[nm] = style
+            return nm
+
+        def history(rows_known):
+            """one step of the life of a series column; rows_known: the number of rows is still n"""
+            x = rng.choice(sorted(ser))
+            d = ser[x]
+            c = rng.random()
+            if c < 0.22:
+                k = rng.choice([0, 0, 0, 1, 2, 4])
+                steps.append(['setdepth', x, k])
+                ser[x] = k
+                if rng.random() < 0.3:          # ... and back
+                    k2 = rng.choice([0, 1, 3])
+                    steps.append(['setdepth', x, k2])
+                    ser[x] = k2
+            elif c < 0.32:
+                steps.append(['fill', x, rng.choice([1, 1.5, -2])] if rng.random() < 0.5 else ['ramp', x])
+            elif c < 0.38 and rows_known and n >= 1 and d:
+                steps.append(['setcell', x, rng.randrange(n), rng.randrange(d), 7])
+            elif c < 0.56 and free_s:
+                new = free_s.pop()
+                if d is None or rng.random() < 0.45:
+                    lo = rng.randint(0, 2)
+                    hi = lo
+                else:
+                    lo = rng.randint(0, d)
+                    hi = rng.randint(lo, d)
+                steps.append(['sslice', new, x, lo, hi])
+                ser[new] = hi - lo
+                if rng.random() < 0.5:
+                    steps.append(['del', x])
+                    del ser[x]
+            elif c < 0.66 and free_s:
+                new = free_s.pop()
+                steps.append(['alias', new, x])
+                ser[new] = d
+            elif c < 0.74 and free_s:
+                new = free_s.pop()
+                steps.append(['rename', x, new])
+                ser[new] = ser.pop(x)
+            elif free_s:
+                fns = list(self.FN_ANY)
+                if rows_known and n >= 1:
+                    fns += self.FN_ROWS
+                    if d is not None and d >= 5:
+                        fns.append('smooth')
+                f = rng.choice(fns)
+                new = x if rng.random() < 0.25 else free_s.pop()
+                steps.append(['fn', f, new, x])
+                ser[new] = self._fn_depth(f, d)
+                if new != x and rng.random() < 0.4:
+                    steps.append(['del', x])
+                    del ser[x]
+
+        grouped = rng.random() < 0.2
+        if grouped:
+            key = add_plain('key')
+            for _ in range(rng.randint(1, 2)):
+                add_plain(rng.choice(['int', 'float']))
+            if rng.random() < 0.3:
+                add_plain('str')
+            c = rng.random()
+            if c < 0.45:
+                steps.append(['select', key, 'eq', 'zzz'])          # an empty selection
+            elif c < 0.6:
+                steps.append(['select', key, 'ne', 'a'])
+            elif c < 0.7:
+                steps.append(['rows', 'empty'])
+            steps.append(['group', [key]])
+            for nm in list(plain):
+                if nm != key:
+                    ser[nm] = None
+                    del plain[nm]
+        else:
+            todo = ['p'] * rng.choice([0, 1, 1, 2, 2, 3]) + ['s'] * rng.choice([1, 1, 1, 1, 2])
+            rng.shuffle(todo)
+            for t in todo:
+                if t == 'p':
+                    add_plain()
+                else:
+                    nm = free_s.pop()
+                    d = rng.choice([0, 0, 0, 1, 1, 2, 3, 5, 6])
+                    steps.append(['series', nm, d, rng.random() < 0.7])
+                    ser[nm] = d
+                    if d and rng.random() < 0.5:
+                        steps.append(['ramp', nm])
+        for _ in range(rng.choice([0, 0, 1, 1, 2, 3])):
+            if ser:
+                history(not grouped)
+        for _ in range(rng.choice([0, 0, 1, 1, 2])):
+            c = rng.random()
+            if c < 0.3:
+                steps.append(['rows', rng.choice(['rev', 'tail', 'empty', 'dup'])])
+            elif c < 0.4:
+                steps.append(['stack'])
+            elif c < 0.55:
+                steps.append(['unsorted'])
+            elif c < 0.68:
+                steps.append(['length', rng.choice([-1, 1, 2, -9])])
+            elif c < 0.78 and plain:
+                steps.append(['sort', rng.choice(sorted(plain))])
+            elif c < 0.88:
+                steps.append(['copy'])
+            elif plain:
+                nm = rng.choice(sorted(plain))
+                steps.append(['select', nm, rng.choice(['eq', 'ne']), self.STYLES[plain[nm]](rng.randrange(3))])
+            elif ser:
+                steps.append(['keep', sorted(ser)[:1]])
+        if ser and rng.random() < 0.35:
+            history(False)
+        if rng.random() < 0.18:
+            steps.append(['resolve', rng.choice(['del', 'reduce'])])
+        return {'kind': 'series', 'rows': n, 'steps': steps, 'delim': delim, 'quote': quote}
+
+    def _fixed_series(self):
+        """Series columns of every shape next to plain columns in every position; every dialect at least once."""
+        out = []
+        k = 0
+
+        def case(rows, steps):
+            nonlocal k
+            delim, quote = DIALECTS[k % len(DIALECTS)]
+            k += 1
+            out.append({'kind': 'series', 'rows': rows, 'steps': steps, 'delim': delim, 'quote': quote})
+        P = lambda nm, style='int', typ='mixed': ['plain', nm, style, typ]      # noqa: E731
+        for depth in (0, 1, 3):
+            for rows in (0, 2):
+                for dn in (True, False):
+                    case(rows, [['series', 's', depth, dn]])                                     # alone
+                case(rows, [P('a'), ['series', 's', depth, True]])                             # last
+                case(rows, [['series', 'S', depth, True], P('a'), P('t', 'str')])                # first
+                case(rows, [P('a'), ['series', 'm', depth, False], P('t', 'str'), P('z', 'float', 'float')])   # middle
+        for rows in (0, 1, 3):
+            case(rows, [P('a'), ['series', 's', 3, True], ['ramp', 's'], ['setdepth', 's', 0]])
+            case(rows, [P('a'), ['series', 's', 3, True], ['setdepth', 's', 0], ['setdepth', 's', 2]])
+            case(rows, [P('a'), ['series', 's', 0, True], ['setdepth', 's', 2], ['setdepth', 's', 0]])
+            case(rows, [P('a'), ['series', 's', 4, True], ['fill', 's', 1], ['sslice', 'e', 's', 0, 0], ['del', 's']])
+            case(rows, [['series', 's', 4, True], ['sslice', 'e', 's', 1, 3], ['del', 's'], P('a', 'str')])
+            case(rows, [P('a'), ['series', 's', 0, True], ['alias', 't', 's']])
+            case(rows, [P('a'), ['series', 's', 2, True], ['alias', 'A', 's'], ['del', 's']])
+            case(rows, [P('a'), ['series', 's', 0, True], ['rename', 's', 'A']])
+            case(rows, [P('k', 'key'), P('v'), ['group', ['k']]])
+            case(rows, [P('k', 'key'), P('v'), P('w', 'float', 'float'), ['select', 'k', 'eq', 'zzz'], ['group', ['k']]])
+            case(rows, [P('a'), ['series', 's', 2, True], ['fn', 'window0', 'w', 's'], ['del', 's']])
+            case(rows, [P('a'), ['series', 's', 1, True], ['fn', 'downsample', 'w', 's'], ['del', 's']] if rows else
+                 [P('a'), ['series', 's', 1, True], ['fn', 'arith', 'w', 's'], ['del', 's']])
+            case(rows, [P('a'), ['series', 's', 0, True], ['resolve', 'del']])
+            case(rows, [P('a'), ['series', 's', 0, True], ['series', 'u', 2, True], ['resolve', 'reduce']])
+            case(rows, [P('a'), ['series', 's', 0, True], ['unsorted'], ['rows', 'rev']])
+            case(rows, [P('a'), ['series', 's', 2, True], ['stack'], ['setdepth', 's', 0]])
+            case(rows, [P('a'), ['series', 's', 0, True], ['length', 2], ['copy']])
+        return out
+
+    def _fixed_empty(self):
+        """Tables without data rows and files none of whose records reaches the last column(s), for EVERY
+        delimiter / quote pair x line ending x BOM (QUOTE_MINIMAL and QUOTE_ALL alternating; the header-only file also
+        with its last line end stripped)."""
+        out = []
+        nq = 0
+        for delim, quote in DIALECTS:
+            nq += 1
+            # written tables of zero rows (one and several columns, sorted or not)
+            for k, nm in enumerate((['a'], ['b', 'a'], ['λ', '名前', 'B'])):
+                for srt in (True, False):
+                    out.append({'kind': 'rt', 'delim': delim, 'quote': quote, 'order': 'asis', 'perm': [], 'sorted': srt,
+                                'cols': [{'name': x, 'type': ['mixed', 'float', 'int'][(k + j) % 3], 'cells': []}
+                                         for j, x in enumerate(nm)]})
+            # ... reached through an empty selection / deletion of the rows of a table that had some
+            out.append({'kind': 'series', 'rows': 3, 'delim': delim, 'quote': quote,
+                        'steps': [['plain', 'k', 'key', 'mixed'], ['plain', 'v', 'float', 'float'],
+                                  ['select', 'k', 'eq', 'zzz']]})
+            out.append({'kind': 'series', 'rows': 2, 'delim': delim, 'quote': quote,
+                        'steps': [['plain', 'x', 'str', 'mixed'], ['plain', 'B', 'int', 'int'], ['length', -9]]})
+            for nl in ['\n', '\r\n', '\r']:
+                for bom in [False, True]:
+                    nq += 1
+                    for quoting in [['minimal', 'all'][nq % 2]]:
+                        base = {'kind': 'file', 'delim': delim, 'quote': quote, 'nl': nl, 'bom': bom, 'quoting': quoting}
+                        # header only
+                        for strip in (False, True):
+                            out.append(dict(base, hdr=['a', 'b', 'c'] if quoting == 'all' else ['x1'], recs=[],
+                                            strip_last=strip))
+                        # every record short: the last column / the last two columns exist only in the header
+                        out.append(dict(base, hdr=['a', 'b', 'c'], recs=[['1', 'x' + delim], ['2'], [], ['', quote]],
+                                        strip_last=bom))
+                        out.append(dict(base, hdr=['b', 'a', 'λ'], recs=[['7']], strip_last=not bom))
+                        out.append(dict(base, hdr=['a', 'b'], recs=[[], []], strip_last=False))
+        return out
 
     def _fixed(self):
         """A few deterministic cases that every run contains."""
@@ -675,23 +1119,25 @@ class C16:
 
     def generate(self, rng, tier):
         thorough = tier == 'thorough'
-        total = 8000 if thorough else 1200
+        total = 9000 if thorough else 1500
         maxrows = 12 if thorough else 6
         os.makedirs(WORK, exist_ok=True)
         self._dir = tempfile.mkdtemp(prefix='c16-', dir=WORK)
         cases = []
         try:
-            inputs = self._fixed()
+            inputs = self._fixed() + self._fixed_series() + self._fixed_empty()
             for k in range(8 if thorough else 6):
-                inputs.append({'kind': 'series', 'depth': rng.randint(1, 5), 'rows': k % 4, 'extra_cols': k % 3})
+                inputs.append({'kind': 'series', 'depth': rng.randint(0, 5), 'rows': k % 4, 'extra_cols': k % 3})
             while len(inputs) < total:
                 c = rng.random()
-                if c < 0.71:
+                if c < 0.64:
                     inputs.append(self.gen_rt(rng, maxrows))
-                elif c < 0.92:
+                elif c < 0.83:
                     inp = self.gen_file(rng, maxrows)
                     if self.render_file(inp) is not None:
                         inputs.append(inp)
+                elif c < 0.92:
+                    inputs.append(self.gen_series(rng))
                 else:
                     inputs.append(self.gen_raw(rng))
             for inp in inputs:
@@ -763,6 +1209,20 @@ class C16:
                         c = clone()
                         c['recs'][i][j] = 'a'
                         out.append(c)
+        elif kind == 'series' and 'steps' in inp:
+            for i in range(len(inp['steps']) - 1, -1, -1):      # an ill-formed candidate is judged neutral, not failing
+                c = clone()
+                del c['steps'][i]
+                out.append(c)
+            for r in (0, 1):
+                if inp['rows'] > r:
+                    c = clone()
+                    c['rows'] = r
+                    out.append(c)
+            if (inp['delim'], inp['quote']) != (',', '"'):
+                c = clone()
+                c.update(delim=',', quote='"')
+                out.append(c)
         elif kind == 'raw':
             t = inp['text']
             for i in range(len(t)):
@@ -783,11 +1243,16 @@ class C16:
             return 'file delim=%r quote=%r nl=%s bom=%s quoting=%s shape=%s' % (
                 i['delim'], i['quote'], NL_NAME.get(i['nl']), i['bom'], i['quoting'],
                 ','.join(t for t in tags if t in ('short-row', 'long-row', 'blank-line', 'strip-last', 'lf-in-field',
-                                                   'numeric-text')))
+                                                   'numeric-text', 'no-records', 'all-short')))
         if kind == 'raw':
             return 'raw delim=%r quote=%r outcome=%s' % (i['delim'], i['quote'], tags[-1] if tags else '?')
         if kind == 'series':
-            return 'series depth=%s rows=%s extra_cols=%s' % (i['depth'], i['rows'], i['extra_cols'])
+            if 'steps' not in i:
+                return 'series depth=%s rows=%s extra_cols=%s' % (i['depth'], i['rows'], i['extra_cols'])
+            return 'series delim=%r quote=%r ops=%s shape=%s' % (
+                i['delim'], i['quote'], ','.join(sorted(t[3:] for t in tags if t.startswith('op:'))),
+                ','.join(t for t in tags if t.startswith(('depth', 'series-', 'rows', 'nseries', 'build-', 'no-', 'non-'))
+                         and not t.startswith('rows0:')))
         return 'corpus ' + json.dumps(i, sort_keys=True, default=str)[:200]
 
 
